@@ -1093,13 +1093,28 @@ pub fn predict_obs(
     if allow & A_QEND == 0 {
         alts.retain(|a| a.variant & V_QEND == 0);
     }
-    // a lexical fault somewhere in the message, met by an implementation that looks ahead
-    if let (Some((k, e)), true) = (lex, step.corrupt.is_empty()) {
+    // a lexical fault somewhere in the message, met by an implementation that looks ahead.
+    // Only for faults the MODEL knows about (catalogued faults, unrepresentable literals): what
+    // the library's own tokenizer says about the bytes is never used to excuse anything - a
+    // tokenizer that wrongly refuses a well-formed message must not be able to vouch for itself.
+    let _ = lex;
+    let first_fault = step
+        .msg
+        .units
+        .iter()
+        .position(|u| u.hfault.is_some() || u.pfault.is_some() || u.params.iter().any(nondec_wide));
+    if let (Some(k), true) = (first_fault, step.corrupt.is_empty()) {
+        // (which of several faults a look-ahead meets first depends on which of them are lexical:
+        // any of their classes)
+        let both = ExpErr::Either(Box::new(ExpErr::CommandClass), Box::new(ExpErr::ExecClass));
+        let wide_in = |u: &Unit| u.params.iter().any(nondec_wide);
+        let class_unit = if wide_in(&step.msg.units[k]) { both.clone() } else { ExpErr::CommandClass };
+        let class_msg = if step.msg.units.iter().any(wide_in) { both.clone() } else { ExpErr::CommandClass };
         let mut at: Vec<usize> = Vec::new();
-        if allow & A_PRESCAN_UNIT != 0 && *k < step.msg.units.len() {
-            at.push(*k);
+        if allow & A_PRESCAN_UNIT != 0 {
+            at.push(k);
         }
-        if allow & A_PRESCAN_MSG != 0 && !step.msg.units.is_empty() {
+        if allow & A_PRESCAN_MSG != 0 && k != 0 {
             at.push(0);
         }
         for j in at {
@@ -1107,7 +1122,7 @@ pub fn predict_obs(
             s2.msg.units[j].hfault = Some(("refused_by_look_ahead".to_string(), B::new()));
             let mut a = predict_with(root, st, &s2, reading, 0);
             if a.structural && a.fail_unit == Some(j) {
-                a.result = Err(ExpErr::Code(e.code));
+                a.result = Err(if j == k && (k != 0 || allow & A_PRESCAN_MSG == 0) { class_unit.clone() } else { class_msg.clone() });
                 alts.push(a);
             }
         }
